@@ -1070,6 +1070,34 @@ def run_resplit(R, r, n):
                     if cp_now != cp_val:
                         R.fail("C09:write-shows-through", f"{sx[:200]}: a copy of the element made BEFORE `x._update(value of the same size, other "
                                f"division)` reads {cp_now[:120]} afterwards, it held {cp_val[:120]}", ctx)
+                        R.fail("C01:value-changed-by-update-of-another-object", f"{sx[:200]}: an object copy-constructed from x reads {cp_now[:120]} "
+                               f"after x._update(...), it was built as {cp_val[:120]} and never written to", ctx)
+                    try:
+                        cp_fresh = deep_str(inner, type(cp_before)._from_buffer(cp_before._buffer, int(cp_before._offset)), cache)
+                    except Exception as ex:
+                        cp_fresh = "EXC " + type(ex).__name__
+                    if cp_now != cp_fresh:
+                        R.fail("C06:handle-differs-from-view", f"{sx[:200]}: y = T(x); x._update(instance of the same size, other division): the "
+                               f"handle y reads {cp_now[:120]}, a view rebuilt from (buffer, offset) reads {cp_fresh[:120]}", ctx)
+                    # a fitting write through the copy's handle stays inside the copy's extent
+                    cb, c0, c1 = cp_before._buffer, int(cp_before._offset), int(cp_before._offset) + int(cp_before._size)
+                    img_c = image(cb)
+                    try:
+                        if kind == "arrays":
+                            tgt_f = cp_before.f1 if lb > 0 else cp_before.f0
+                            tgt_f[(lb if lb > 0 else la) - 1] = 77
+                        elif kind == "strings":
+                            cp_before.f1 = "c" * len(vb)
+                        else:
+                            cp_before[1] = "c" * len(vb)
+                        R.tags["resplit.write-through-earlier-copy"] += 1
+                    except Exception:
+                        pass
+                    now_c = image(cb)
+                    out_c = [i for i in range(min(len(img_c), len(now_c))) if img_c[i] != now_c[i] and not (c0 <= i < c1)]
+                    if out_c:
+                        R.fail("C03:write-outside-extent", f"{sx[:200]}: y = T(x); x._update(...); a fitting element assignment through y "
+                               f"(extent [{c0},{c1})) changed bytes {out_c[:6]} outside it", ctx)
                 if seen != fresh_own:
                     R.fail("C06:handle-differs-from-view", f"{sx[:200]}: after x._update(instance of the same size) the handle x reads {seen[:120]}, a "
                            f"view rebuilt from (buffer, offset) reads {fresh_own[:120]}", ctx)
